@@ -103,6 +103,17 @@ func NewSolver(kind string, timeoutMS int) (*Solver, error) {
 	return s, nil
 }
 
+// SetTimeout changes the per-query timeout (harnesses with floating-point obligations ask for more).
+func (s *Solver) SetTimeout(ms int) {
+	if ms == s.timeoutMS {
+		return
+	}
+	s.timeoutMS = ms
+	if s.Kind != "cvc5" {
+		s.send(fmt.Sprintf("(set-option :timeout %d)\n", ms))
+	}
+}
+
 func (s *Solver) send(text string) {
 	if s.dead {
 		return
